@@ -1,19 +1,258 @@
 package main
 
-import "fmt"
+import (
+	"fmt"
+	"go/ast"
+	"go/parser"
+	"go/token"
+	"os"
+	"os/exec"
+	"path/filepath"
+	"regexp"
+	"sort"
+	"strings"
+	"sync"
+)
 
-// selftest machinery is in selftest_impl.go once mutants are defined.
-func selftestMain(args []string) int {
-	id := "all"
-	if len(args) > 0 {
-		id = args[0]
-	}
-	return selftestRun(id, 0, false)
+// The checker's own sensitivity test (DESIGN.md §3.4). Each Mutant is a small
+// edit of the real source, located by function and a pattern inside it, that
+// breaks one rule instance while the tree still type-checks. The edited file
+// is given to go/packages as an overlay in a child process (nothing is written
+// into /repo), the property's rules are run on that variant, and at least one
+// obligation of the expected rule must fail that does not fail on the real
+// tree. Patterns only locate the edit; rules never see them. An operator whose
+// pattern no longer applies is reported as skipped.
+
+type Mutant struct {
+	Prop   string
+	Name   string
+	File   string // relative to /repo
+	Func   string // "Recv.Name" or "Name": restricts the search to this declaration ("" = whole file)
+	Find   string // regexp
+	Repl   string
+	Expect []string // rule ids, one of which must report a new failure
 }
 
-func selftestRun(id string, jobs int, quiet bool) int {
-	if !quiet {
-		fmt.Println("selftest: no mutants registered yet for", id)
+var mutants []Mutant
+
+func addMutants(ms ...Mutant) { mutants = append(mutants, ms...) }
+
+// apply returns the mutated file content, or ok=false when the operator does not apply.
+func (m *Mutant) apply() (content []byte, ok bool, why string) {
+	path := filepath.Join(repoDir(), m.File)
+	src, err := os.ReadFile(path)
+	if err != nil {
+		return nil, false, "file not found"
 	}
+	lo, hi := 0, len(src)
+	if m.Func != "" {
+		fset := token.NewFileSet()
+		f, err := parser.ParseFile(fset, path, src, parser.SkipObjectResolution)
+		if err != nil {
+			return nil, false, "file does not parse"
+		}
+		found := false
+		for _, d := range f.Decls {
+			fd, isFn := d.(*ast.FuncDecl)
+			if !isFn {
+				continue
+			}
+			name := fd.Name.Name
+			if fd.Recv != nil && len(fd.Recv.List) == 1 {
+				t := fd.Recv.List[0].Type
+				if st, ok := t.(*ast.StarExpr); ok {
+					t = st.X
+				}
+				if ix, ok := t.(*ast.IndexExpr); ok {
+					t = ix.X
+				}
+				if ix, ok := t.(*ast.IndexListExpr); ok {
+					t = ix.X
+				}
+				if id, ok := t.(*ast.Ident); ok {
+					name = id.Name + "." + name
+				}
+			}
+			if name == m.Func {
+				lo, hi = fset.Position(fd.Pos()).Offset, fset.Position(fd.End()).Offset
+				found = true
+			}
+		}
+		if !found {
+			return nil, false, "function " + m.Func + " not found"
+		}
+	}
+	re, err := regexp.Compile(m.Find)
+	if err != nil {
+		return nil, false, "bad pattern: " + err.Error()
+	}
+	seg := src[lo:hi]
+	loc := re.FindSubmatchIndex(seg)
+	if loc == nil {
+		return nil, false, "pattern does not match"
+	}
+	var repl []byte
+	repl = re.Expand(repl, []byte(m.Repl), seg, loc)
+	out := append([]byte{}, src[:lo+loc[0]]...)
+	out = append(out, repl...)
+	out = append(out, src[lo+loc[1]:]...)
+	return out, true, ""
+}
+
+type mutResult struct {
+	m       *Mutant
+	status  string // killed | missed | skipped | invalid
+	detail  string
+	newFail []string
+}
+
+func selftestMain(args []string) int {
+	var ids []string
+	jobs := 3
+	for i := 0; i < len(args); i++ {
+		switch {
+		case args[i] == "-j" && i+1 < len(args):
+			fmt.Sscanf(args[i+1], "%d", &jobs)
+			i++
+		default:
+			ids = append(ids, args[i])
+		}
+	}
+	if len(ids) == 0 {
+		ids = []string{"all"}
+	}
+	code := 0
+	for _, id := range ids {
+		res, c := selftestRun(id, jobs)
+		for _, r := range res {
+			fmt.Printf("mutant %-4s %-44s %-8s %s\n", r.m.Prop, r.m.Name, r.status, r.detail)
+		}
+		if c != 0 {
+			code = c
+		}
+	}
+	return code
+}
+
+// selftestRun runs the mutants of one property (or all). Exit code 0 when every
+// applicable mutant is reported by an expected rule.
+func selftestRun(id string, jobs int) ([]mutResult, int) {
+	var sel []*Mutant
+	for i := range mutants {
+		if id == "all" || mutants[i].Prop == id {
+			sel = append(sel, &mutants[i])
+		}
+	}
+	if jobs <= 0 {
+		jobs = 3
+	}
+	self, err := os.Executable()
+	if err != nil {
+		return nil, 2
+	}
+	results := make([]mutResult, len(sel))
+	sem := make(chan struct{}, jobs)
+	var wg sync.WaitGroup
+	for i, m := range sel {
+		results[i].m = m
+		content, ok, why := m.apply()
+		if !ok {
+			results[i].status, results[i].detail = "skipped", why
+			continue
+		}
+		wg.Add(1)
+		go func(i int, m *Mutant, content []byte) {
+			defer wg.Done()
+			sem <- struct{}{}
+			defer func() { <-sem }()
+			tmp, err := os.CreateTemp("", "gverif-mutant-*.go")
+			if err != nil {
+				results[i].status, results[i].detail = "invalid", err.Error()
+				return
+			}
+			defer os.Remove(tmp.Name())
+			tmp.Write(content)
+			tmp.Close()
+			out, _ := exec.Command(self, "mutant", m.Prop, m.File, tmp.Name()).CombinedOutput()
+			text := string(out)
+			switch {
+			case strings.Contains(text, "MUTLOAD-ERROR"):
+				results[i].status = "invalid"
+				results[i].detail = "variant does not type-check: " + truncate(oneLine(text), 200)
+				return
+			case !strings.Contains(text, "MUTDONE"):
+				results[i].status = "invalid"
+				results[i].detail = "child failed: " + truncate(oneLine(text), 200)
+				return
+			}
+			var fails []string
+			for _, ln := range strings.Split(text, "\n") {
+				if k, ok := strings.CutPrefix(ln, "MUTFAIL\t"); ok {
+					fails = append(fails, k)
+				}
+			}
+			sort.Strings(fails)
+			results[i].newFail = fails
+			hit := ""
+			for _, k := range fails {
+				for _, e := range m.Expect {
+					if strings.HasPrefix(k, e+"/") {
+						hit = k
+					}
+				}
+			}
+			if hit != "" {
+				results[i].status, results[i].detail = "killed", "reported by "+truncate(hit, 120)
+			} else {
+				results[i].status = "missed"
+				results[i].detail = fmt.Sprintf("expected a new failure of %v, got %v", m.Expect, fails)
+			}
+		}(i, m, content)
+	}
+	wg.Wait()
+	code := 0
+	for _, r := range results {
+		if r.status == "missed" || r.status == "invalid" {
+			code = 2
+		}
+	}
+	return results, code
+}
+
+// mutantChild: run one property's rules on the tree with one file replaced and
+// print the obligations that fail and are not listed known findings.
+func mutantChild(args []string) int {
+	if len(args) < 3 {
+		return 2
+	}
+	id, rel, tmp := args[0], args[1], args[2]
+	meta, ok := registry[id]
+	if !ok {
+		fmt.Println("MUTLOAD-ERROR no such property")
+		return 2
+	}
+	content, err := os.ReadFile(tmp)
+	if err != nil {
+		fmt.Println("MUTLOAD-ERROR", err)
+		return 2
+	}
+	w, err := LoadWorld("", map[string][]byte{filepath.Join(repoDir(), rel): content})
+	if err != nil {
+		fmt.Println("MUTLOAD-ERROR", oneLine(err.Error()))
+		return 3
+	}
+	run := &Run{Prop: id, Tier: "quick", W: w, config: "mutant"}
+	func() {
+		defer func() {
+			if e := recover(); e != nil {
+				run.Fail("analyser", "panic", "", fmt.Sprint(e))
+			}
+		}()
+		meta.Run(run)
+	}()
+	for _, k := range run.newFailures() {
+		fmt.Println("MUTFAIL\t" + k)
+	}
+	fmt.Println("MUTDONE")
 	return 0
 }
